@@ -93,6 +93,10 @@ class Ev:
                 raise NotComputable("free variable " + r["name"])
             if "value" in r:
                 return r["value"]
+            # a constant item of the analysed crate: its body is evaluated
+            b = self.crate.body(r.get("path")) if self.crate is not None and r.get("path") else None
+            if b is not None and str(b.get("kind", "")).startswith(("Const", "AssocConst")):
+                return self.ev(b["value"], {})
             raise NotComputable("path " + str(r.get("path")))
         if k in ("AddrOf",):
             return self.ev(e["e"], env)
@@ -233,6 +237,21 @@ def denote_pred(expr, crate, captured=None):
         return denote_closure(e, crate, captured)
     if e.get("k") == "Path" and e["res"].get("r") == "Def" and e["res"].get("dk") == "Fn":
         return denote_fn(crate, e["res"]["path"])
+    return None
+
+
+def denote_term(t, ps, crate):
+    """Class of a predicate given as a pathsum term: a closure (with its captured literals) or a path to a local fn."""
+    if not isinstance(t, tuple) or not t:
+        return None
+    if t[0] == "closure":
+        node = ps.closures.get(t[1])
+        cap = {}
+        if len(t) > 2:
+            cap = {i: v[2] for (i, v) in t[2] if isinstance(v[2], (int, bool))}
+        return denote_closure(node, crate, cap) if node is not None else None
+    if t[0] == "fn":
+        return denote_fn(crate, t[1])
     return None
 
 
